@@ -223,3 +223,36 @@ Fixpoint bal (d : nat) (ops : list op) : bool :=
 
 (* the name -> id binding the machine currently answers (0 = none) *)
 Definition vm_view (s : vm) (k : str) : N := match afind k (cur s) with Some v => vid v | None => 0 end.
+
+(* ------------------------------------------------------------------ reordering of independent top-level definitions *)
+Definition simple_op (o : op) : bool :=
+  match o with Use _ g c => negb g && negb c | Find _ g => negb g | _ => true end.
+
+Fixpoint top_adds (d : nat) (ops : list op) : list str :=
+  match ops with
+  | [] => []
+  | Enter :: r => top_adds (S d) r
+  | Leave :: r => top_adds (pred d) r
+  | Add n _ :: r => match d with O => n :: top_adds d r | _ => top_adds d r end
+  | _ :: r => top_adds d r
+  end.
+
+Definition op_name (o : op) : option str :=
+  match o with Add n _ | Use n _ _ | Find n _ => Some n | _ => None end.
+Definition mentions (ops : list op) (name : str) : bool :=
+  existsb (fun o => match op_name o with Some m => str_eqb m name | None => false end) ops.
+(* no name that `ins` declares at top level is mentioned by `d` *)
+Definition indep (ins d : list op) : bool := forallb (fun nm => negb (mentions d nm)) (top_adds 0 ins).
+
+Fixpoint count_new (ops : list op) : N :=
+  match ops with [] => 0 | (Add _ _ | Fresh) :: r => 1 + count_new r | _ :: r => count_new r end.
+
+(* the bijection of ids: ids that existed before the two definitions stay, the definition's own ids move by k *)
+Definition shift (n0 k i : N) : N := if i <=? n0 then i else i + k.
+Definition shift_out (n0 k : N) (o : op) (out : N) : N :=
+  match o with Enter | Leave => out | _ => shift n0 k out end.
+Fixpoint shift_outs (n0 k : N) (ops : list op) (outs : list N) : list N :=
+  match ops, outs with
+  | o :: r, x :: l => shift_out n0 k o x :: shift_outs n0 k r l
+  | _, _ => []
+  end.
